@@ -9,7 +9,10 @@ from ..runner import Divergence, Driver, Env, Outcome, Violation, diff_streams
 
 THEOREMS = ["C09_empty_expected", "C09_complete_iff", "C09_complete_ordered", "C09_complete_perm", "C09_pending_add",
             "C09_dropped_iff_surplus", "C09_reducer_fresh_add", "C09_reducer_stale_rerun", "C09_reducer_stale_rerun_all_buffers", "C09_stale_rerun_tick", "C09_reducer_rerun_skips", "C09_reducer_delete",
-            "C09_drain_keeps_buffers", "C09_single_flight_partition", "C09_single_flight_once", "C09_refuted_double_count"]
+            "C09_drain_keeps_buffers", "C09_single_flight_partition", "C09_single_flight_once", "C09_refuted_double_count",
+            "C09_complete_only_received", "C09_conc_single_flight_refines", "C09_conc_lists_ordered_received", "C09_conc_trigger_in_one_list",
+            "C09_conc_no_double_buffering", "C09_refuted_conc_buffer_invariant", "C09_refuted_conc_none_lost",
+            "C09_conc_finish_refines_reducer", "C09_conc_start_refines_admission", "C09_collect_source_shape"]
 EXPLANATION = (
     "Lean: collectEvents (model of InternalContext.collect_events) returns a list iff buffer+event has exactly the expected "
     "multiset of types (under the buffer invariant, which pending adds preserve), ordered as `expected`, a permutation of "
@@ -25,7 +28,14 @@ EXPLANATION = (
     "that are no prefix of the live buffer). Search: the re-run rule recomputed from (state, tick) on every direct pair and every "
     "live result tick (C09/rerun_snapshot_not_fresh), the snapshot each invocation works on vs. the live buffer it was started / "
     "re-run against, per-call, per-result-tick and whole-run monitors on live fan-in workflows with 1..4 workers under "
-    "scheduler-controlled interleavings, incl. three-type rounds where one invocation outlives a completed round (span family)."
+    "scheduler-controlled interleavings, incl. three-type rounds where one invocation outlives a completed round (span family). "
+    "Every schedule with any number of invocations in flight (WfModel/CollectConc.lean, invariant by induction over admissions and "
+    "finishes): lists ordered as expected and made of admitted events, the completing event of a list is in no other list and was never "
+    "buffered, nothing is buffered twice, an event in flight is counted nowhere (C09_conc_*); the histories are the reducer's "
+    "(C09_conc_finish_refines_reducer / _start_refines_admission) and, single-flight, the collectRound histories; the only-when clause "
+    "for any snapshot (C09_complete_only_received); BufOK of the live buffer and no-loss refuted at history level with a two-worker "
+    "witness replayed on the real reducer + collect_events (stream engine-collect-concurrent, op C09CH, 1..4 workers); 32 decision "
+    "expressions of collect_events / the collect branches / the admission pinned from the sources (C09_collect_source_shape)."
 )
 ASSUMPTIONS = suite.ENGINE_ASSUMPTIONS + [
     "event classes are compared by exact type, as the code does (Counter over type(e)); subclasses are distinct class ids",
@@ -212,7 +222,7 @@ def _drive(out: Outcome, name: str, ops: list[str], exp: list[str]) -> None:
 def run(env: Env) -> Outcome:
     out = Outcome()
     out.rule = ("CE: (expected, snapshot, event) triples, 70% with the buffer invariant; CR: arrival sequences of 1..12 events through the real "
-                "reducer + collect_events; direct (state, tick) pairs with prefix and earlier-round snapshots; live: fan-in workflows (collecting "
+                "reducer + collect_events; C09CH: schedules of arrivals / finishes for 1..4 workers (1..14 arrivals, bias 0.3..0.7, 30% stop mid-flight) through the real reducer + collect_events; direct (state, tick) pairs with prefix and earlier-round snapshots; live: fan-in workflows (collecting "
                 "step with 1..3 workers, gates), span fan-in (3 types, 2..3 rounds, a held straggler) and general specs under random "
                 "schedules; non-trivial = a list was returned / more than 2 ticks; distinct by op line / (spec, schedule)")
     case = (env.replay or {}).get("payload", {}).get("case") if env.replay is not None else None
@@ -224,6 +234,10 @@ def run(env: Env) -> Outcome:
     # the corpus (hand-picked sequences, the witnesses of the open findings) and a replayed live case run first
     suite.live_runs(env, out, 0, [monitors.mon_c09], extra_specs=suite.load_corpus("C09"))
     _ce_corr(env, out, env.budget(4000, 80000))
+    # any number of invocations in flight: generated schedules through the real reducer + collect_events vs. the concurrent
+    # histories of WfModel/CollectConc.lean (op C09CH); the Lean witness C09.concWitness runs first
+    from ..engine import c09x
+    c09x.conc_corr(env, out, env.budget(1200, 24000), replay_case=case["conc"] if isinstance(case, dict) and "conc" in case else None)
     _cr_corr(env, out, env.budget(1500, 30000))
     suite.direct_corr(env, out, env.budget(1500, 30000), gen_kwargs={"span_snapshots": True}, pair_monitor=monitors.c09_rerun_check)
     suite.live_runs(env, out, env.budget(60, 1200), [monitors.mon_c09])
